@@ -566,6 +566,36 @@ def rule_bp_mask(ctx, rep):
     pat.require(n >= 3, "bp: only %d accesses to saved_fork_signal_mask found" % n)
 
 
+def rule_fork_vs_free(ctx, rep):
+    """call_rcu_before_fork() waits, with call_rcu_mutex held, for every helper on call_rcu_data_list to acknowledge PAUSED.  A helper that is being
+    retired acknowledges STOPPED instead and exits; that is harmless only if retiring (setting STOP ... unlinking) is serialised with the fork
+    handler by the same mutex, or if the handler's wait also ends on STOPPED.  Today neither holds (known finding, DESIGN Section 4, 5.)."""
+    for fl in ALL:
+        F = FL[fl]
+        FLG = c03.flags(ctx)
+        b = ctx.fn(F.lib, F.pfx + "_call_rcu_before_fork")
+        fr = ctx.fn(F.lib, F.pfx + "_call_rcu_data_free")
+        if b is None or fr is None:
+            raise Broken("%s: before_fork / call_rcu_data_free roots" % fl)
+        rep.touch(b)
+        rep.touch(fr)
+        stop = [e.inst for e in pat.accesses(fr, "call_rcu_data.flags", ("rmw",)) if e.rop == "or" and ir.const_of(fr, e.val) == FLG.STOP]
+        pat.require(stop, "%s: call_rcu_data_free does not set STOP" % fl)
+        must = lockset.compute(fr)
+        unserialised = [i for i in stop if "@call_rcu_mutex" not in must.get(i.id, ())]
+        leave = [(t, s_, a) for t, s_, a in pat.branch_edges_on(b, lambda a: a[0] == "ne" and a[2] == ("c", 0) and a[1][0] == "bin" and a[1][1] == "and" and a[1][3][0] == "c"
+                                                              and (a[1][3][1] & FLG.PAUSED) and pat.is_load_expr(a[1][2], "call_rcu_data.flags"))]
+        if not leave:
+            rep.unk("C16.forkfree", fl + ".before_fork-vs-concurrent-free", "the wait for PAUSED in before_fork is not in a shape this rule recognises")
+            continue
+        blind = [(t, s_, a) for t, s_, a in leave if not (a[1][3][1] & FLG.STOPPED)]
+        stopped_too = pat.branch_edges_on(b, lambda a: a[0] == "ne" and a[2] == ("c", 0) and a[1][0] == "bin" and a[1][1] == "and" and a[1][3][0] == "c" and (a[1][3][1] & FLG.STOPPED))
+        ok = not unserialised or not blind or bool(stopped_too)
+        rep.check(ok, "C16.forkfree", fl + ".before_fork-vs-concurrent-free", "a helper retired concurrently with the fork handler cannot keep it waiting (STOP is set under call_rcu_mutex, or the wait also ends on STOPPED)",
+                  "call_rcu_data_free() sets STOP without call_rcu_mutex and unlinks the helper only after it stopped, while call_rcu_before_fork() (mutex held) waits for PAUSED alone: a helper "
+                  "that honours STOP first exits with STOPPED, never PAUSED - before_fork polls for ever and the freeing thread blocks on the mutex", [unserialised[0].where() if unserialised else fr.name, leave[0][0].where()])
+
+
 def rule_child_handover(ctx, rep):
     """The child merges every inherited queue into its fresh default helper through _call_rcu_data_free(): the hand-over rules
     of C03 (leftovers spliced under call_rcu_mutex, the helper that *received* them is woken afterwards) are what makes
@@ -672,6 +702,7 @@ RULES = [
     ("C16.pause", rule_pause),
     ("C16.aliases", lambda c, r: __import__("sa.aliases", fromlist=["x"]).rule_aliasmap(c, r, "C16.aliases")),   # the legacy spellings of the fork handlers (rcu_bp_after_fork_child, call_rcu_after_fork_child_bp, ...) reach the handler of the same name
     ("C16.child", rule_child),
+    ("C16.forkfree", rule_fork_vs_free),
     ("C16.hooks", rule_hooks),
     ("C16.wqreq", rule_wq_requester),
     ("C16.hookreg", rule_hookreg),
